@@ -156,18 +156,34 @@ def run(ctx):
     fin = anchors.one('SearchStream::finish_inner', fin)
     B = hirq.Body(f, fin)
     ctx.analysed['bodies'].add(B.path)
-    sends = [n for n, c in walk(B.root) if n['k'] == 'MethodCall' and n['name'] == 'send' and hirq.strip_refs(n['recv'].get('ty', '')) == anchors.T_SCRUB_SENDER]
-    ok = False
-    for s in sends:
-        o = B.origin(s['args'][0])
-        if o[1] and o[1][-1] == ('field', 'last_id'):
-            conds = [c for c in hirq.conditions(B.context(s)) if c[0] == 'if']
-            # allowed: unconditional, or under `state != Done`
-            good = True
-            for c in conds:
-                cn = c[1]['cond']
-                is_ne_done = cn['k'] == 'Binary' and cn['op'] == 'Ne' and hirq.short_def((cn['r'].get('ctor_of') or cn['r'].get('def') or '')) == 'StreamState::Done' and c[2] == 'then'
-                if not is_ne_done and cn['k'] != 'LetExpr':
-                    good = False
-            ok = ok or good
-    ctx.add('K6.early-finish-scrubs', B.path, loc(B.root), ok, 'finish() of a stream that is not Done does not scrub the stream\'s message ID')
+    # Decided on the enumerated paths of finish_inner, started once in every state of the stream: from every state in which a search
+    # may be outstanding (Active, Error - not Done: the server has said that the search is over) each path that completes has sent the stream's own message ID
+    # (`self.<handle>.last_id`) into the scrub channel.  How the state is tested (`!=`, `matches!`, a `match`) is immaterial: the
+    # start state is a constructor, so every such test is decided.
+    SELF = ('param', 'self')
+    enum = f.items.get('ldap3::search::StreamState')
+    states = [hirq.short_def(v['path']) for v in (enum or {}).get('variants', [])]
+    if 'StreamState::Done' not in states:
+        ctx.fail('anchor-missing', 'StreamState', '', 'the stream state enum with a Done variant was not found')
+    def is_scrub_send(node):
+        ty = node['recv'].get('ty', '') if node.get('k') == 'MethodCall' else (node['args'][0].get('ty', '') if node.get('k') == 'Call' and node.get('args') else '')
+        return hirq.strip_refs(ty) == anchors.T_SCRUB_SENDER
+    def own_id(t):
+        if t[0] != 'field' or t[2] != 'last_id':
+            return False
+        while t[0] == 'field':
+            t = t[1]
+        return t == SELF
+    for sname in states:
+        if sname in ('StreamState::Done', 'StreamState::Closed', 'StreamState::Fresh'):
+            # Closed: the stream has been finished before (and scrubbed then, by this rule); Fresh: no search was issued, no ID is
+            # reserved for it.  Nothing is claimed for either.
+            continue
+        I = absx.Interp(f, B, combinators=True)
+        outs = [o for o in I.run(root=sem.entry(B), heap={('field', SELF, 'state'): ('ctor', sname, ())}) if o.kind in ('val', 'ret')]
+        ctx.floor('K6', 'completing paths of finish_inner from %s' % sname, len(outs), 1)
+        for o in outs:
+            scrubbed = [args[1] for i, cal, args, node in sem.calls(o, lambda c: c.endswith('UnboundedSender::<T>::send')) if is_scrub_send(node) and len(args) == 2]
+            ctx.add('K6.early-finish-scrubs', '%s|%s' % (B.path, sname.split('::')[-1]), loc(B.root), any(own_id(a) for a in scrubbed),
+                    'finish() of a stream that is not Done (state %s) has a path that does not scrub the stream\'s message ID (scrubbed: %s)'
+                    % (sname.split('::')[-1], [absx.fmt(a)[:40] for a in scrubbed]))
